@@ -76,5 +76,5 @@ PROPS = {
     'C19': _p(['cli'], ['C19.detect', 'C19.inspect', 'C19.merge'], RULE_CLI, 2500, 150000, _STEP),
     'C20': _p(['mixed', 'story', 'item'], ['C20.ids', 'C20.content', 'C20.inspect'], RULE_STEP, 4000, 300000,
               {'roundtrip': False, 'accessors': False, 'message': True}),
-    'C12': _p(['mixed', 'story', 'item', 'timing', 'classify', 'kofn'] * 3 + ['huge'], ['C12.exc', 'C12.progress'], RULE_STEP, 6000, 400000, _STEP),
+    'C12': _p(['mixed', 'story', 'item', 'timing', 'classify', 'kofn', 'collection'] * 3 + ['huge'], ['C12.exc', 'C12.progress'], RULE_STEP, 6000, 400000, _STEP),
 }
